@@ -76,6 +76,8 @@ class Ctx:
             loc = func.loc(node) if not isinstance(func, str) else (
                 "%s:%d" % (module.rel, node.lineno) if module is not None else "")
         f = Finding(rule, fname, stmt, message, loc, extra)
+        if any(g.key == f.key and g.message == f.message for g in self.findings):
+            return f
         self.findings.append(f)
         self.obligations.append({"rule": rule, "where": loc, "obligation": what or message,
                                  "status": "refuted", "detail": message})
